@@ -109,6 +109,7 @@ package server
 //@   ensures [roundtrip] ret1 == nil ==> indexOf(ret0, ":") >= 0 && has(s.NamespaceManager.prefixToExpansionMapping, ret0[:indexOf(ret0, ":")])
 //@     | && s.NamespaceManager.prefixToExpansionMapping[ret0[:indexOf(ret0, ":")]] + ret0[indexOf(ret0, ":")+1:] == val
 //@   ensures [only-http] ret1 == nil ==> hasPrefix(val, "http://") || hasPrefix(val, "https://")
+//@   ensures [C05:lock-released] $held == old($held)
 
 // ---------------------------------------------------------------------------
 // C20: backup
@@ -640,9 +641,21 @@ package server
 // C04 / C05 / C19: a batch is written under the dataset's write lock, ids are committed before the data that names
 // them, the call is acknowledged only after the data transaction committed, the counter is updated after the commit
 
-//@ assumed (*Store).commitIDTxn
-//@   modifies $held, $acq
-//@   ensures $held == old($held)
+// the shared id transaction is committed under the id lock; an acknowledged commit leaves no pending id transaction behind
+//@ unit (*Store).commitIDTxn
+//@   prop C04 C05
+//@   ghost committedG bool = false
+//@   requires s != nil && !has($held, lockerAddr(s.idmux))
+//@   requires [callers-hold-no-lock-at-or-above-the-id-lock] forall l int :: has($held, l) ==> lockLevel(l) < 4
+//@   requires-inv [the-id-lock-is-a-standalone-mutex] s != nil ==> lockLevel(lockerAddr(s.idmux)) == 4
+//@   modifies $held, $acq, Store.idtxn
+//@   ensures [C05:id-lock-released] $held == old($held)
+//@   ensures [C04:acknowledged-id-commit-leaves-no-pending-id-transaction] result == nil ==> s.idtxn == nil
+//@   ensures [C04:acknowledged-id-commit-means-the-pending-id-transaction-was-committed] result == nil && old(s.idtxn) != nil ==> committedG
+//@   at call Commit#1 before
+//@     assert [C04:the-shared-id-transaction-is-committed-under-the-id-lock] $arg0 == s.idtxn && has($held, lockerAddr(s.idmux))
+//@   at call Commit#1
+//@     ghost committedG := $result == nil
 //@ assumed (*badger.Txn).Commit
 //@   pure
 // updating another dataset's counter stores the meta entity through core.Dataset's own StoreEntities, which takes
@@ -662,7 +675,7 @@ package server
 //@   requires ds.fullSyncStarted ==> ds.fullSyncSeen != nil
 //@   ensures [C04:ack-implies-committed] result == nil && len(entities) > 0 ==> committedG && idsCommittedG
 //@   ensures [C05:lock-released] $held == old($held)
-//@   frame-assumed preserves Entity.IsDeleted, Entity.ID, Dataset.store, Dataset.fullSyncStarted, Dataset.fullSyncSeen, Dataset.fullSyncID, Dataset.fullSyncLease, Dataset.ID, Dataset.InternalID, []*server.Entity, Cell.*
+//@   frame-assumed preserves Entity.IsDeleted, Entity.ID, Dataset.store, Dataset.fullSyncStarted, Dataset.fullSyncSeen, Dataset.fullSyncID, Dataset.fullSyncLease, Dataset.ID, Dataset.InternalID, []*server.Entity, Cell.*, Store.deletedDatasets, Store.nextDatasetID, map[uint32]bool, DsManager.*
 //@   at call NewTransaction#1
 //@     ghost txnG := $result
 //@   at call UnixNano#1 before
@@ -692,23 +705,70 @@ package server
 //@   pure
 //@   ensures result == regDs($regVer, id)
 //@   ensures result != nil ==> result.ID == id
-//@ assumed (*Store).deleteValue
+// $recordsDeleted counts the acknowledged single-key deletions: deleteValue deletes exactly the key it is given, in a
+// transaction of its own, and reports the outcome of that transaction
+//@ ghost $recordsDeleted int
+//@ unit (*Store).deleteValue
+//@   prop C07 C14 C19
+//@   ghost delG bool = false
+//@   requires s != nil
 //@   modifies $recordsDeleted
 //@   ensures result == nil ==> $recordsDeleted == old($recordsDeleted) + 1
 //@   ensures result != nil ==> $recordsDeleted == old($recordsDeleted)
-//@ ghost $recordsDeleted int
+//@   ensures [C07,C14:acknowledged-deletion-deleted-the-callers-key] result == nil ==> delG
+//@   at $1 call Delete#1 before
+//@     assert [C07,C14:the-callers-key-is-the-one-deleted] $arg1 == key
+//@   at $1 call Delete#1
+//@     ghost delG := $result == nil
+//@   at return
+//@     ghost $recordsDeleted := (result == nil) ? old($recordsDeleted) + 1 : old($recordsDeleted)
 //@ assumed (*sync.Map).Delete
 //@   modifies $regVer
 //@   ensures $regVer == old($regVer) + 1
 // the registry record of a dataset is stored under a key made from the dataset's current name
 //@ spec recordName(b slice) string
-//@ assumed (*Dataset).getStorageKey
-//@   pure
+// (definition of recordName, instantiated where a record key is built: the name is what follows the two prefix bytes)
+//@ axiomlemma recordName_of(b slice, s string): len(b) == 2 + len(s) && (forall j int :: 0 <= j && j < len(s) ==> b[2 + j] == strByteAt(s, j)) ==> recordName(b) == s
+//@ unit (*Dataset).getStorageKey
+//@   prop C14 C07 C19
+//@   requires ds != nil
+//@   modifies none
+//@   ensures [C14:record-key-is-the-registry-prefix-followed-by-the-bytes-of-the-datasets-name] len(result) == 2 + len(ds.ID) && encBE16(result, 0) == SysDatasetsID && (forall j int :: 0 <= j && j < len(ds.ID) ==> result[2 + j] == strByteAt(ds.ID, j))
 //@   ensures recordName(result) == ds.ID
-//@ assumed (*DsManager).storeEntity
-//@   preserves Store.deletedDatasets, Store.nextDatasetID, map[uint32]bool, DsManager.*
-//@ assumed (*DsManager).NewDatasetEntity
-//@   pure
+//@   safe slice
+//@   at return
+//@     use recordName_of(key, ds.ID)
+// the meta entity of a dataset is stored as a one-element batch through the given dataset's own StoreEntities
+//@ unit (*DsManager).storeEntity
+//@   prop C19 C14
+//@   requires-inv [the-meta-dataset-is-registered-and-constructed-with-its-store] dataset != nil && dataset.store != nil && (dataset.fullSyncStarted ==> dataset.fullSyncSeen != nil)
+//@   requires [meta-entity-exists] entity != nil
+//@   requires [the-meta-datasets-write-lock-is-free] !has($held, addrOf(dataset.WriteLock))
+//@   requires [callers-hold-no-lock-above-dataset-level] forall l int :: has($held, l) ==> lockLevel(l) <= 2
+//@   requires [only-core-dataset-is-written-while-another-datasets-write-lock-is-held] forall d *Dataset :: has($held, addrOf(d.WriteLock)) ==> dataset.ID == "core.Dataset" && d.ID != "core.Dataset"
+//@   preserves Store.deletedDatasets, Store.nextDatasetID, map[uint32]bool, DsManager.*, Entity.IsDeleted, Entity.ID, Dataset.store, Dataset.fullSyncStarted, Dataset.fullSyncSeen, Dataset.fullSyncID, Dataset.fullSyncLease, Dataset.ID, Dataset.InternalID
+//@   ensures [C05:lock-released] $held == old($held)
+//@   at call StoreEntities#1 before
+//@     assert [C19:meta-entity-stored-as-a-one-element-batch-in-the-given-dataset] ds == dataset && len(entities) == 1 && entities[0] == entity
+// the meta entity of a dataset: identified by the dataset prefix and the dataset's name, live, carrying the name and an
+// items counter that starts at 0
+//@ inline server.NewEntity
+//@ unit (*DsManager).NewDatasetEntity
+//@   prop C19 C14
+//@   ghost pfxG string = ""
+//@   requires-inv [the-manager-is-constructed-with-a-store-that-has-a-namespace-manager] dsm != nil && dsm.store != nil && dsm.store.NamespaceManager != nil
+//@   requires [the-namespace-lock-is-free] !has($held, addrOf(dsm.store.NamespaceManager.lock))
+//@   requires [callers-hold-no-lock-at-or-above-the-namespace-lock] forall l int :: has($held, l) ==> lockLevel(l) < 5
+//@   ensures [C19:meta-entity-is-identified-by-the-dataset-prefix-and-the-datasets-name] result != nil && result.ID == pfxG + ":" + name
+//@   ensures [C19:meta-entity-is-live] !result.IsDeleted
+//@   ensures [C19:meta-entity-carries-the-name-and-an-items-counter-starting-at-zero] result.Properties != nil && has(result.Properties, pfxG + ":name") && has(result.Properties, pfxG + ":items") && typeof(result.Properties[pfxG + ":items"]) == typeid("int") && cast(result.Properties[pfxG + ":items"], "int") == 0 && typeof(result.Properties[pfxG + ":name"]) == typeid("string") && cast(result.Properties[pfxG + ":name"], "string") == name
+//@   ensures [lock-released] $held == old($held)
+//@   preserves Store.*, DsManager.*, Dataset.*, map[uint32]bool, Entity.*
+//@   at call AssertPrefixMappingForExpansion#1 before
+//@     assert [C19:dataset-prefix-is-the-prefix-of-the-dataset-namespace] uriExpansion == "http://data.mimiro.io/core/dataset/"
+//@   at call AssertPrefixMappingForExpansion#1
+//@     ghost pfxG := $result0
+//@   safe nilmap
 //@ assumed (*bus.EventBus).UnregisterTopic
 //@   pure
 //@ assumed (server.EventBus).UnregisterTopic
@@ -742,6 +802,8 @@ package server
 //@     assert [C07,C19:dataset-leaves-both-registries-before-its-record-is-removed] unregG == 2
 //@   at call storeEntity#1 before
 //@     assert [C07,C19:core-entity-written-after-the-dataset-left-the-registries] unregG == 2 && $recordsDeleted == old($recordsDeleted) + 1
+//@   at call GetEntity#1
+//@     assume [TRUSTED-data-invariant:every-registered-dataset-has-a-meta-entity-in-core-dataset] $result1 == nil ==> $result0 != nil
 //@   loop 1
 //@     invariant newDeletedDatasets != 0 && newDeletedDatasets != dsm.store.deletedDatasets
 //@     invariant forall k uint32 :: visited(k) ==> has(newDeletedDatasets, k)
@@ -812,11 +874,23 @@ package server
 
 // creating a dataset: a fresh internal id (never reused), persisted before the dataset record that carries it
 //@ inline server.NewDataset
-//@ assumed (*Store).storeValue
+// $valuesStored counts the acknowledged single-key writes: storeValue sets exactly the key and value it is given, in a
+// transaction of its own, and reports the outcome of that transaction
+//@ ghost $valuesStored int
+//@ unit (*Store).storeValue
+//@   prop C04 C07 C14 C19
+//@   ghost setG bool = false
+//@   requires s != nil
 //@   modifies $valuesStored
 //@   ensures result == nil ==> $valuesStored == old($valuesStored) + 1
 //@   ensures result != nil ==> $valuesStored == old($valuesStored)
-//@ ghost $valuesStored int
+//@   ensures [C04,C14:acknowledged-write-stored-the-callers-key-and-value] result == nil ==> setG
+//@   at $1 call Set#1 before
+//@     assert [C04,C14:the-callers-key-and-value-are-the-ones-written] $arg1 == key && $arg2 == value
+//@   at $1 call Set#1
+//@     ghost setG := $result == nil
+//@   at return
+//@     ghost $valuesStored := (result == nil) ? old($valuesStored) + 1 : old($valuesStored)
 //@ assumed (*sync.Map).Store
 //@   modifies $regVer
 //@   ensures $regVer == old($regVer) + 1
@@ -826,6 +900,7 @@ package server
 //@ unit (*Store).moveValue
 //@   prop C07
 //@   requires s != nil
+//@   modifies none
 //@   at $1 call Delete#1 before
 //@     assert [C07:rename-removes-the-old-record] key == oldKey
 //@   at $1 call Set#1 before
@@ -891,9 +966,16 @@ package server
 // renaming a dataset: the record moves from the key of the old name to the key of the new name (one transaction, see
 // moveValue) and carries the new name; the registry is updated only after the record moved; the meta entity of the old
 // name is tombstoned and a live one for the new name is written
-//@ assumed (*NamespaceManager).GetDatasetNamespaceInfo
-//@   pure
-//@   ensures foreign(ret0)
+//@ unit (*NamespaceManager).GetDatasetNamespaceInfo
+//@   prop C19
+//@   requires-inv [the-namespace-manager-exists] namespaceManager != nil
+//@   requires [the-namespace-lock-is-free] !has($held, addrOf(namespaceManager.lock))
+//@   requires [callers-hold-no-lock-at-or-above-the-namespace-lock] forall l int :: has($held, l) ==> lockLevel(l) < 5
+//@   modifies $held, $acq
+//@   ensures [lock-released] $held == old($held)
+//@   ensures [C19:counter-and-name-keys-are-the-ones-the-meta-entity-is-created-with] ret1 == nil ==> ret0.ItemsKey == ret0.DatasetPrefix + ":items" && ret0.NameKey == ret0.DatasetPrefix + ":name" && ret0.PublicNamespacesKey == ret0.DatasetPrefix + ":publicNamespaces"
+//@   at call GetPrefixMappingForExpansion#1 before
+//@     assert [C19:dataset-prefix-is-the-prefix-of-the-dataset-namespace] uriExpansion == "http://data.mimiro.io/core/dataset/"
 //@ unit (*DsManager).UpdateDataset
 //@   prop C14 C07 C19
 //@   ghost movedG bool = false
@@ -916,6 +998,12 @@ package server
 //@     assert [C14:registry-maps-the-new-name-to-the-renamed-dataset] movedG && cast(key, "string") == newName && cast(value, "*server.Dataset") == ds
 //@   at call GetEntity#1 before
 //@     assert [C19:meta-entity-of-the-old-name-is-looked-up] uri == dsInfo.DatasetPrefix + ":" + name
+//@   at call GetEntity#1
+//@     assume [TRUSTED-data-invariant:every-registered-dataset-has-a-meta-entity-in-core-dataset] $result1 == nil ==> $result0 != nil
+//@   at call IsDataset#2
+//@     assume [TRUSTED-data-invariant:core-dataset-is-always-registered] newName == "core.Dataset" ==> $result
+//@   at call GetDataset#2
+//@     assume [TRUSTED-data-invariant:core-dataset-is-always-registered] $result != nil
 //@   at call storeEntity#1 before
 //@     assert [C19:old-meta-entity-tombstoned-in-core-dataset] entity.IsDeleted && dataset == core
 //@   at call storeEntity#2 before
@@ -978,6 +1066,7 @@ package server
 
 //@ unit (*Store).mergeInto
 //@   prop C01
+//@   preserves Store.*, Dataset.*, DsManager.*, map[uint32]bool, RelatedFrom.*, []*server.RelatedFrom, []uint32, []server.RelatedEntityResult, RelatedEntityResult.*, []server.qresult, qresult.*, RelatedEntitiesQueryResult.*, RelatedEntitiesResult.*, []*server.Entity, Entity.*
 //@   requires target != nil && source != nil && target != source
 //@   requires target.References != nil && source.References != nil && target.Properties != nil && source.Properties != nil
 //@   requires target.References != source.References && target.References != source.Properties && target.References != target.Properties && target.Properties != source.References && target.Properties != source.Properties && source.Properties != source.References
@@ -1032,11 +1121,23 @@ package server
 
 //@ assumed (*MetaContext).RegisterQuerySideInput
 //@   pure
-//@ assumed (*Store).createMultiOriginEntity
-//@   pure
-//@   ensures result != nil
-//@ assumed (*Store).getURIForID
-//@   pure
+// an unmerged lookup wraps the partials, all of them and in dataset order, under the id of the first
+//@ unit (*Store).createMultiOriginEntity
+//@   prop C01
+//@   requires len(partials) >= 1 && partials[0] != nil
+//@   preserves Store.*, Dataset.*, DsManager.*, map[uint32]bool, RelatedFrom.*, []*server.RelatedFrom, []uint32, []server.RelatedEntityResult, RelatedEntityResult.*, []server.qresult, qresult.*, RelatedEntitiesQueryResult.*, RelatedEntitiesResult.*, []*server.Entity
+//@   ensures [C01:unmerged-lookup-is-identified-by-the-first-partial] result != nil && result.ID == old(partials[0].ID)
+//@   safe index typeassert nilmap
+//@   loop 1
+//@     invariant -1 <= $i && $i < len(partials) && result != nil && result.ID == old(partials[0].ID) && result.Properties != nil
+//@     invariant has(result.Properties, "http://data.mimiro.io/core/partials") && typeof(result.Properties["http://data.mimiro.io/core/partials"]) == typeid("[]interface{}")
+// id -> uri: looked up under the 10-byte key {id-to-uri index, id}, the key family assertIDForURI writes
+//@ unit (*Store).getURIForID
+//@   prop C13 C03
+//@   requires-inv [the-store-is-open] s != nil && s.database != nil
+//@   modifies none
+//@   at call Get#1 before
+//@     assert [C13:uri-looked-up-under-the-id-index-key-of-exactly-this-id] len(key) == 10 && encBE16(key, 0) == IDToURIIndexID && encBE64(key, 2) == rid
 
 //@ unit (*Store).GetEntityAtPointInTimeWithInternalID
 //@   prop C06 C01 C07
@@ -1049,6 +1150,7 @@ package server
 //@   requires s != nil
 //@   requires-inv [the-store-is-constructed] s != nil ==> s.MetaCtx != nil
 //@   requires-inv [existing-objects] foreign(s.deletedDatasets)
+//@   preserves Store.*, Dataset.*, DsManager.*, map[uint32]bool, RelatedFrom.*, []*server.RelatedFrom, []uint32, []server.RelatedEntityResult, RelatedEntityResult.*, []server.qresult, qresult.*, RelatedEntitiesQueryResult.*, RelatedEntitiesResult.*
 //@   safe slice
 //@   at call NewIterator#1
 //@     ghost txnG := rtxn
@@ -1212,6 +1314,7 @@ package server
 //@   requires s != nil
 //@   requires limit >= 0
 //@   requires [index-of-the-direction] from != nil ==> encBE16(from.RelationIndexFromKey, 0) == (from.Inverse ? 2 : 3)
+//@   preserves RelatedFrom.*, Store.*, Dataset.*, DsManager.*, []uint32, []*server.RelatedFrom, RelatedEntitiesQueryResult.*, []server.RelatedEntityResult
 //@   requires-inv [existing-objects] foreign(s.deletedDatasets)
 //@   requires-inv [start-key-is-a-whole-buffer] from != nil ==> offOf(from.RelationIndexFromKey) == 0 && foreign(from.RelationIndexFromKey)
 //@   ensures [C06:continuation-pins-the-instant-and-the-query] ret2 == nil && ret1 != nil ==> ret1.At == from.At && ret1.Predicate == from.Predicate && ret1.Inverse == from.Inverse && ret1.Datasets == from.Datasets
@@ -1303,9 +1406,40 @@ package server
 // the earlier start points left over; a start point that is not queried (limit used up) is carried over unchanged, and the
 // continuation of a queried start point is carried over; both in start-point order, nothing else enters the list
 
-//@ assumed (*Store).getRelatedEntitiesAtTime
-//@   pure
-//@   ensures foreign(ret0.Relations)
+// one start point: every relation the scan returned becomes one result, in scan order, carrying the predicate of that
+// relation and the entity loaded for that relation's id in the query's own scope; the scan's continuation is handed on
+//@ unit (*Store).getRelatedEntitiesAtTime
+//@   prop C03 C06
+//@   ghost scanRelsG []qresult
+//@   ghost scanContG *RelatedFrom = nil
+//@   ghost relPredUriG intstrmap
+//@   ghost relEntG intmap
+//@   requires s != nil && limit >= 0
+//@   requires-inv [start-points-are-well-formed:built-by-ToRelatedFrom-or-returned-as-a-continuation-by-the-scan] from != nil && encBE16(from.RelationIndexFromKey, 0) == (from.Inverse ? 2 : 3) && len(from.RelationIndexFromKey) >= 10
+//@   frame-assumed preserves RelatedFrom.*, []*server.RelatedFrom, Store.*, Cell.*, []server.RelatedEntityResult, Dataset.*, RelatedEntitiesQueryResult.*, []uint32
+//@   ensures [C03:results-are-handed-back-in-a-list-of-their-own] ret1 == nil ==> fresh(ret0.Relations)
+//@   ensures [C03:one-result-per-scanned-relation] ret1 == nil ==> len(ret0.Relations) == len(scanRelsG)
+//@   ensures [C03:continuation-of-the-scan-is-handed-on] ret1 == nil ==> ret0.Continuation == scanContG
+//@   ensures [C03:result-k-carries-the-entity-and-predicate-of-relation-k] ret1 == nil ==> (forall k int :: 0 <= k && k < len(scanRelsG) ==> ret0.Relations[k].RelatedEntity == relEntG[k] && ret0.Relations[k].PredicateURI == relPredUriG[k])
+//@   at call GetRelatedAtTime#1 before
+//@     assert [C03,C06:scan-gets-the-start-point-and-page-size-unchanged] $arg1 == from && $arg2 == limit
+//@   at call GetRelatedAtTime#1
+//@     ghost scanRelsG := $result0
+//@     ghost scanContG := $result1
+//@   at call getURIForID#1 before
+//@     assert [C03:start-uri-is-the-uri-of-the-start-entity-of-the-key] rid == encBE64(from.RelationIndexFromKey, 2)
+//@   at call getURIForID#2 before
+//@     assert [C03:predicate-uri-is-looked-up-for-the-relations-predicate] rid == scanRelsG[$i1 + 1].PredicateID
+//@   at call getURIForID#2
+//@     ghost relPredUriG := put(relPredUriG, $i1 + 1, $result0)
+//@   at call GetEntityWithInternalID#1 before
+//@     assert [C03,C06:related-entity-is-loaded-for-the-relations-id-in-the-querys-scope] internalID == scanRelsG[$i1 + 1].EntityID && targetDatasetIds == from.Datasets && $arg3 == mergePartials
+//@   at call GetEntityWithInternalID#1
+//@     ghost relEntG := put(relEntG, $i1 + 1, $result0)
+//@   loop 1
+//@     invariant -1 <= $i && $i < len(scanRelsG) && len(result) == len(scanRelsG) && relations == scanRelsG && cont == scanContG
+//@     invariant forall k int :: 0 <= k && k <= $i ==> result[k].RelatedEntity == relEntG[k] && result[k].PredicateURI == relPredUriG[k]
+//@   safe slice index
 
 //@ unit (*Store).GetManyRelatedEntitiesAtTime
 //@   prop C03
@@ -1342,8 +1476,12 @@ package server
 // ---------------------------------------------------------------------------
 // C14: Open reloads every registry from the key its mutators persist it under
 
-//@ assumed (*Store).readValue
-//@   pure
+//@ unit (*Store).readValue
+//@   prop C14
+//@   requires s != nil
+//@   modifies none
+//@   at $1 call Get#1 before
+//@     assert [C14:the-callers-key-is-the-one-read] $arg1 == key
 //@ assumed (*Store).loadDatasets
 //@   preserves Store.*, NamespaceManager.*
 //@ assumed badger.DefaultOptions
@@ -1409,7 +1547,7 @@ package server
 // - freshly decoded, pairwise distinct entities and lists - are assumed here for the partials of one lookup.)
 //@ unit (*Store).mergePartials
 //@   prop C01
-//@   frame-assumed preserves Store.*, Dataset.*, map[uint32]bool, []*server.Entity
+//@   preserves Store.*, Dataset.*, DsManager.*, map[uint32]bool, RelatedFrom.*, []*server.RelatedFrom, []uint32, []server.RelatedEntityResult, RelatedEntityResult.*, []server.qresult, qresult.*, RelatedEntitiesQueryResult.*, RelatedEntitiesResult.*, []*server.Entity
 //@   ghost mergedG int = 0
 //@   requires s != nil
 //@   requires forall i int :: 0 <= i && i < len(partials) ==> partials[i] != nil
@@ -1432,10 +1570,28 @@ package server
 // instant taken now, and exactly these are handed to the paged scan with the requested limit
 //@ assumed (*Store).DatasetsToInternalIDs
 //@   pure
-//@ assumed (*Store).GetPredicateID
-//@   pure
-//@ assumed (*Store).getIDForURI
-//@   pure
+// uri -> id: looked up under the key {uri-to-id index, bytes of the uri}, the key family assertIDForURI writes; the id is
+// the big-endian value stored there
+//@ spec isUriKey(k []byte, uri string) bool = len(k) == len(uri) + 2 && encBE16(k, 0) == 0 && (forall j int :: 0 <= j && j < len(uri) ==> k[2 + j] == strByteAt(uri, j))
+//@ unit (*Store).getIDForURI
+//@   prop C13 C01 C03
+//@   requires s != nil && txn != nil
+//@   modifies none
+//@   ensures [C13:empty-uri-rejected] uri == "" ==> ret2 != nil
+//@   ensures [C13:unknown-uri-has-no-id] ret2 == nil && !ret1 ==> ret0 == 0
+//@   at call Get#1 before
+//@     assert [C13:id-looked-up-in-the-callers-transaction-under-the-uri-index-key-of-exactly-this-uri] $arg0 == txn && isUriKey(key, uri) && URIToIDIndexID == 0
+//@   safe slice
+// a predicate is resolved like an entity id: a full URI is compacted first, "*" stands for every predicate (id 0)
+//@ unit (*Store).GetPredicateID
+//@   prop C03
+//@   requires s != nil && s.database != nil && s.NamespaceManager != nil && !has($held, addrOf(s.NamespaceManager.lock))
+//@   requires [callers-hold-no-lock-at-or-above-the-namespace-lock] forall l int :: has($held, l) ==> lockLevel(l) < 5
+//@   ensures [C03:wildcard-predicate-is-id-zero] predicate == "*" ==> ret0 == 0 && ret1 == nil
+//@   ensures [lock-released] $held == old($held)
+//@   at call getIDForURI#1 before
+//@     assert [C03:compact-predicates-are-looked-up-as-given] hasPrefix(predicate, "ns") ==> uri == predicate
+//@   frame-assumed preserves Store.*, NamespaceManager.lock, Dataset.*, RelatedFrom.*, []*server.RelatedFrom, Cell.*, Enc.*, []uint32
 // a start point of a relationship query: the 10-byte key {index of the direction, internal id of the start entity}, the
 // predicate, the direction, the scope and the one instant the whole query is pinned to
 //@ unit (*Store).ToRelatedFrom
@@ -1547,6 +1703,7 @@ package server
 //@   requires-inv [the-store-is-constructed] s != nil && s.database != nil && s.NamespaceManager != nil
 //@   requires [namespace-lock-free] !has($held, addrOf(s.NamespaceManager.lock))
 //@   requires [callers-hold-no-lock-at-or-above-the-namespace-lock] forall l int :: has($held, l) ==> lockLevel(l) < 5
+//@   ensures [C05:every-lock-taken-by-a-lookup-is-released] $held == old($held)
 //@   at call getIDForURI#1
 //@     ghost idG := $result0
 //@   at call DatasetsToInternalIDs#1 before
@@ -1557,6 +1714,7 @@ package server
 //@     assert [C01:the-entity-with-the-resolved-id-is-looked-up-in-the-requested-scope] $arg1 == idG && $arg2 == scopeG && $arg3 == mergePartials
 //@ unit (*Store).GetEntityWithInternalID
 //@   prop C01 C06
+//@   preserves Store.*, Dataset.*, DsManager.*, map[uint32]bool, RelatedFrom.*, []*server.RelatedFrom, []uint32, []server.RelatedEntityResult, RelatedEntityResult.*, []server.qresult, qresult.*, RelatedEntitiesQueryResult.*, RelatedEntitiesResult.*
 //@   ghost nowG int = 0
 //@   requires s != nil
 //@   at call UnixNano#1
